@@ -24,13 +24,13 @@ for d in sorted(glob.glob(os.path.join(HERE, 'seeded', '*'))):
         und = any(x['exit'] == 2 for x in r['runs'])
         return 'undecided (exit 2)' if und else 'missed (exit 0)'
     rows.append('| `%s` | %s | %s | %s | %s |' % (name, m['property'], m['needs_to_manifest'].replace('|', '/'), cell('quick'), m.get('why_missed', '') if not (res.get('quick') or {}).get('detected') else ''))
-tbl = ['### 9.4 Seeded changes and which check catches them', '',
+tbl = ['### 9.5 Seeded changes and which check catches them', '',
        'Every change below was written by an independent sub-agent that saw only the property text and a scratch worktree, and was confirmed with',
        '`tools/confirm_seeded.sh` (builds, the whole ctest suite passes with it, its demonstration fails with it and passes without it).',
        '`tools/run_seeded.py <name>` applies it in a scratch worktree and runs the property\'s quick check there (`VERIF_REPO`).', '',
        '| seeded change | property | needs, to manifest | quick check | if missed: why |', '|---|---|---|---|---|'] + rows + ['']
 p = os.path.join(HERE, 'DESIGN.md')
 s = open(p).read()
-i = s.index('### 9.4 Seeded changes')
+i = s.index('### 9.5 Seeded changes')
 open(p, 'w').write(s[:i] + '\n'.join(tbl))
 print(len(rows), 'rows')
